@@ -199,6 +199,24 @@ def unlock_task(prop, cfg, tier, seed):
                 bad.append("configuration changed although unlocking failed")
         if not bad:
             ctx.res["discharged"] += 1
+            if ctx.res["witnesses"] < 2:
+                # validate the idealisation: the same scenario with real PBKDF2 / AES-CBC / HMAC behaves the same way
+                mw = ctx.E.decide_case(True)
+                if mw is not None:
+                    from symx import replay as _rp
+
+                    desc = ctx._describe(mw, "witness")
+                    verdict, detail = _rp.run_replay(desc)
+                    if verdict == "ok":
+                        ctx.res["witnesses"] += 1
+                        if len(ctx.res["samples"]) < 2:
+                            ctx.res["samples"].append(dict(cfg=desc["cfg"], vars=desc["vars"], outcome=detail[:160]))
+                    elif verdict == "violation":
+                        path = ctx._save(desc, "witness")
+                        ctx.res["violations"].append(dict(what="real cryptography disagrees with the idealised run",
+                                                          replay=path, detail=detail, vars=desc.get("vars")))
+                    else:
+                        ctx.res["witness_failures"].append(detail)
             return
         m_ = ctx.E.decide_case(True)
         desc = ctx._describe(m_, "; ".join(bad))
